@@ -71,7 +71,8 @@ def setup (ctx : Algo.Ctx) (optS lines steps : String) : Setup :=
     let all := parseStrList lines
     let hl := (o "hlines" "0").toNat!
     let ls := all.drop hl
-    let headers := all.take hl
+    -- `--header-lines=N` reserves N rows whatever the input holds: records that are missing are blank rows
+    let headers := let h := all.take hl; h ++ List.replicate (hl - h.length) []
     let cfg : Cfg := { U := ctx.unicode, sch := schemeDefault, norm := ctx.norm }
     let fo : Fzf.Filter.Opts := {
       cfg, criteria := Fzf.Filter.schemeCriteria "default", fuzzy := o "exact" "0" != "1", v2 := true, extended := true,
